@@ -11,6 +11,8 @@ import JaqVerif.Gen.C15Group
 import JaqVerif.Lemmas.C15Climb
 import JaqVerif.Lemmas.C15Print
 import JaqVerif.Lemmas.C15Lex
+import JaqVerif.Lemmas.C15Layout
+import JaqVerif.Lemmas.C15Layout2
 
 namespace Jaq.C15
 open Spec Gen PrecOp
@@ -102,7 +104,10 @@ ones*; any number of additional (redundant, nested) parentheses is allowed. -/
 
 /-- **Parsing the printed form gives the program back**, for operator trees of any size and any
 parenthesisation that includes the required parentheses: inserting implied or redundant
-parentheses never changes the program.  (Operators: all but bindings; see `as_extends_right`.) -/
+parentheses never changes the program.  Operators: all 25, INCLUDING bindings `l as $x | r`
+(round 2; before: all but bindings): a binding may stand wherever its body can extend to the end
+of the enclosing parenthesis-free term (`PT.Ok`: not unparenthesised inside a left operand), and
+then everything to its right is its body, whatever operators occur there. -/
 theorem parse_print (p : PT) (h : PT.Ok p) : parseToks p.toks = some p.erase := by
   have hs := size_le_sizes h
   have := term_toks p.size p (Nat.le_refl _) h (parseFuel p.toks) (by unfold parseFuel; omega) [] trivial
@@ -120,11 +125,33 @@ theorem parens_irrelevant (p q : PT) (hp : PT.Ok p) (hq : PT.Ok q) (he : p.erase
 `bin (bin (paren (paren a)) * (paren (bin 1 + $x))) | b` -/
 example : PT.Ok (.bin (.bin (.paren (.paren (.leaf (.call ['a'])))) (.math .mul)
       (.paren (.bin (.leaf (.num ['1'])) (.math .add) (.leaf (.var ['$', 'x']))))) (.pipe none) (.leaf (.call ['b']))) := by
-  refine .bin _ _ _ (.bin _ _ _ (.paren _ (.paren _ (.leaf _ (by unfold Leaf.Ok; decide)))) (.paren _ (.bin _ _ _ (.leaf _ (by unfold Leaf.Ok; decide)) (.leaf _ (by unfold Leaf.Ok; decide)) rfl ?_ ?_)) rfl ?_ ?_) (.leaf _ (by unfold Leaf.Ok; decide)) rfl ?_ ?_
+  refine .bin _ _ _ (.bin _ _ _ (.paren _ (.paren _ (.leaf _ (by unfold Leaf.Ok; decide)))) (.paren _ (.bin _ _ _ (.leaf _ (by unfold Leaf.Ok; decide)) (.leaf _ (by unfold Leaf.Ok; decide)) rfl (Or.inl rfl) ?_ (fun _ => ?_))) rfl (Or.inl rfl) ?_ (fun _ => ?_)) (.leaf _ (by unfold Leaf.Ok; decide)) rfl (Or.inl rfl) ?_ (fun _ => ?_)
   all_goals first
     | exact okL_atom _ _
     | exact okR_atom _ _
-    | (intro o' h; simp only [PT.toE, rootOp, Option.some.injEq] at h; subst h; left; decide)
+    | (intro o' h; simp only [PT.toE, BinOp.isAs, Bool.false_eq_true, if_false, rootOp, Option.some.injEq] at h; subst h; left; decide)
+
+/-- … and with bindings: `a , b as $x | c | d + e` (which is `a , (b as $x | (c | (d + e)))`) is
+`PT.Ok` without any parentheses; `(a as $x | b) | c` needs its parentheses -/
+example : PT.Ok (.bin (.leaf (.call ['a'])) .comma (.bin (.leaf (.call ['b'])) (.pipe (some (.var ['$', 'x'])))
+      (.bin (.leaf (.call ['c'])) (.pipe none) (.bin (.leaf (.call ['d'])) (.math .add) (.leaf (.call ['e'])))))) ∧
+    ¬ PT.Ok (.bin (.bin (.leaf (.call ['a'])) (.pipe (some (.var ['$', 'x']))) (.leaf (.call ['b']))) (.pipe none) (.leaf (.call ['c']))) := by
+  have lf : ∀ c : Char, c.isLower = true → PT.Ok (.leaf (.call [c])) := fun c hc => .leaf _ (by
+    unfold Leaf.Ok isAtomKeyword Leaf.str kw
+    simp only [Bool.or_eq_false_iff, beq_eq_false_iff_ne, ne_eq]
+    refine ⟨⟨⟨⟨⟨⟨⟨?_, ?_⟩, ?_⟩, ?_⟩, ?_⟩, ?_⟩, ?_⟩, ?_⟩ <;> (intro h; simp at h)
+    subst h; exact absurd hc (by decide))
+  constructor
+  · refine .bin _ _ _ (lf 'a' rfl) (.bin _ _ _ (lf 'b' rfl) (.bin _ _ _ (lf 'c' rfl) (.bin _ _ _ (lf 'd' rfl) (lf 'e' rfl)
+      rfl (Or.inl rfl) ?_ (fun _ => ?_)) rfl (Or.inl rfl) ?_ (fun _ => ?_)) rfl (Or.inr ⟨_, rfl⟩) ?_ (fun h => absurd h (by decide)))
+      rfl (Or.inl rfl) ?_ (fun _ => ?_)
+    all_goals first
+      | exact okL_atom _ _
+      | exact okR_atom _ _
+      | (intro o' h; simp only [PT.toE, BinOp.isAs, Bool.false_eq_true, if_false, if_true, rootOp, Option.some.injEq] at h; subst h; left; decide)
+  · intro h
+    cases h with
+    | bin _ _ _ _ _ ho _ _ _ => exact absurd ho (by decide)
 
 /-! ## 4. Bindings extend as far right as possible; white space and comments do not matter -/
 
@@ -161,6 +188,76 @@ theorem lex_trivia_irrelevant_partial {tr : Str} (h : Trivia tr) :
    Missing: the maximal-munch lemmas per token class ("a lexeme followed by trivia or by a
    non-gluing character is cut exactly at its end"); the correspondence renders every tree with
    random trivia instead. -/
+
+/-- **White space, newlines and comments between tokens never matter** (full statement).
+`Layout ts text` (C15/Layout.lean, a definition that does not mention the lexer) says: `text` is
+a lexeme of each token of `ts` in order, with ARBITRARY trivia — any mix of spaces, tabs, newlines,
+CR LF, Unicode white space, comments including backslash-continuation lines with odd/even counts —
+in front of, between and after the lexemes, recursively inside `(…)`, `[…]`, `{…}` and string
+interpolations `\(…)`, possibly ending in an unterminated comment; the only side condition is the
+separation condition `Token.glues`: where a lexeme would be glued to the character that follows
+it (letter after word, digit after number, `=` after `<`, …) at least one trivia is required.
+Every such text is lexed to exactly `ts`: two layouts of the same tokens are the same program. -/
+theorem lex_trivia_irrelevant (ts : List Token) (text text' : Str)
+    (h : Layout ts text) (h' : Layout ts text') : lex text = some ts ∧ lex text' = lex text := by
+  rw [lex_of_layout h, lex_of_layout h']
+  exact ⟨rfl, rfl⟩
+
+/-- **The lexer accepts exactly the layouts, and returns their tokens.**  `Layout` is a
+declarative description (regular expressions for the lexemes, `Trivia` for what is skipped, the
+separation condition `Token.glues`); so the token list is a function of the lexemes alone, every
+text the lexer accepts is cut into trivia and lexemes as described (nothing is dropped or
+misread), and anything that is not a layout is rejected. -/
+theorem lex_iff_layout (text : Str) (ts : List Token) : lex text = some ts ↔ Layout ts text :=
+  ⟨layout_of_lex, lex_of_layout⟩
+
+/-- hence: take ANY text the lexer accepts and lay out the same lexemes with any other trivia
+(`Layout ts text'` — satisfiable for every such `ts`, e.g. by `text` itself): same tokens -/
+theorem lex_relayout (text text' : Str) (ts : List Token) (h : lex text = some ts) (h' : Layout ts text') :
+    lex text' = some ts ∧ Layout ts text :=
+  ⟨lex_of_layout h', layout_of_lex h⟩
+
+/-- rejection at the lexical level is sound and complete: the lexer reports an error exactly
+for the texts that are not a layout of any token list -/
+theorem lex_rejects_iff (text : Str) : lex text = none ↔ ¬ ∃ ts, Layout ts text := by
+  constructor
+  · rintro h ⟨ts, hl⟩
+    rw [lex_of_layout hl] at h
+    exact absurd h (by simp)
+  · intro h
+    cases hl : lex text with
+    | none => rfl
+    | some ts => exact absurd ⟨ts, layout_of_lex hl⟩ h
+
+/-- where the separation condition can fail at all: non-empty trivia after a lexeme always
+separates it from what follows, and so does a closing delimiter or the end of the input -/
+theorem trivia_separates (t : Token) {tr : Str} (htr : Trivia tr) (hne : tr ≠ []) (s : Str) :
+    t.glues (tr ++ s) = false ∧ t.glues [] = false :=
+  ⟨glues_trivia t htr hne s, glues_nil t⟩
+
+/-- a concrete instance: `a  +b#c⏎` and `a+ # x \⏎ y⏎ b` are layouts of the tokens `a`, `+`, `b` -/
+example : Layout [.word ['a'], .sym ['+'], .word ['b']] ['a', ' ', ' ', '+', 'b', '#', 'c', '\n'] ∧
+    Layout [.word ['a'], .sym ['+'], .word ['b']]
+      ['a', '+', ' ', '#', ' ', 'x', ' ', '\\', '\n', ' ', 'y', '\n', ' ', 'b'] := by
+  have ha : Spells (.word ['a']) ['a'] := .word _ (.plain _ (.mk 'a' [] (by decide) (allP_nil _)))
+  have hb : Spells (.word ['b']) ['b'] := .word _ (.plain _ (.mk 'b' [] (by decide) (allP_nil _)))
+  have hp : Spells (.sym ['+']) ['+'] := .sym _ (.op '+' [] (by decide) (allP_nil _))
+  constructor
+  · refine ⟨_, [], (List.append_nil _).symm, ?_, .none⟩
+    exact .cons [] _ ['a'] _ [' ', ' ', '+', 'b', '#', 'c', '\n'] .nil ha
+      (.cons [' ', ' '] _ ['+'] _ ['b', '#', 'c', '\n'] (.ws _ _ (by decide) (.ws _ _ (by decide) .nil)) hp
+        (.cons [] _ ['b'] _ ['#', 'c', '\n'] .nil hb
+          (.nil _ (.comment ['c', '\n'] [] (.last ['c'] (by decide) (by decide)) .nil)) (by decide))
+        (by decide)) (by decide)
+  · refine ⟨_, [], (List.append_nil _).symm, ?_, .none⟩
+    exact .cons [] _ ['a'] _ ['+', ' ', '#', ' ', 'x', ' ', '\\', '\n', ' ', 'y', '\n', ' ', 'b'] .nil ha
+      (.cons [] _ ['+'] _ [' ', '#', ' ', 'x', ' ', '\\', '\n', ' ', 'y', '\n', ' ', 'b'] .nil hp
+        (.cons [' ', '#', ' ', 'x', ' ', '\\', '\n', ' ', 'y', '\n', ' '] _ ['b'] _ []
+          (.ws _ _ (by decide) (.comment [' ', 'x', ' ', '\\', '\n', ' ', 'y', '\n'] [' ']
+            (.cont [' ', 'x', ' ', '\\'] [' ', 'y', '\n'] (by decide) (by decide) (.last [' ', 'y'] (by decide) (by decide)))
+            (.ws _ _ (by decide) .nil)))
+          hb (.nil [] .nil) (by decide))
+        (by decide)) (by decide)
 
 /-- the comment rule, concretely: `# a \⏎ b ⏎` is one comment (continuation line);
 ` # a \\⏎⇥` is a comment that ends at the first newline -/
